@@ -318,6 +318,13 @@ func writeListing(ws string, s *Spec, l Listing, omitFirst bool) {
 			if e.Exec {
 				mode = 0755
 			}
+			if s.BinNoChmod {
+				for _, o := range s.Outs {
+					if o.Kind == "bin" && filepath.Join(s.Pkg, o.Path) == e.Path {
+						mode = 0644 // grog marks the declared bin output executable itself
+					}
+				}
+			}
 			os.WriteFile(abs, []byte(e.Data), mode)
 			os.Chmod(abs, mode)
 		}
